@@ -24,11 +24,17 @@ def advance (c : Cache) (d : Nat) : Cache := { c with now := c.now + d }
 
 def find (c : Cache) (k : Nat) : Option Entry := c.entries.find? fun e => e.key == k
 
-/-- `get`: a hit refreshes `lastGet`; expiry is not looked at -/
+/-- `expiresAt.Before(now)` for an entry that has an expiry -/
+def expired (c : Cache) (e : Entry) : Bool := match e.expires with | some x => x < c.now | none => false
+
+/-- `get`: an entry past its lifetime is dropped and counts as a miss (fix 926463a; before it expiry was only looked at
+by `gc`); a hit refreshes `lastGet` -/
 def look (c : Cache) (k : Nat) : Cache × Option Nat :=
   match find c k with
   | none => (c, none)
-  | some e => ({ c with entries := c.entries.map fun x => if x.key == k then { x with lastGet := c.now } else x }, some e.val)
+  | some e =>
+    if expired c e then ({ c with entries := c.entries.filter fun x => x.key != k, evictions := c.evictions + 1 }, none)
+    else ({ c with entries := c.entries.map fun x => if x.key == k then { x with lastGet := c.now } else x }, some e.val)
 
 /-- `set`: replaces the entry; `lastGet` is the time of the write, expiry only for a positive ttl -/
 def put (c : Cache) (k v ttl : Nat) : Cache :=
